@@ -417,8 +417,12 @@ def run(pid, tier):
         samples=[cases[3][1], cases[-1][1]], chunkings_executed=nexec, undecidable_by_model=nund, exhaustive=False,
         rule='MC_Stream: reader = Messages for every chunking of every stream over a small alphabet; code binding: streams of 1-6 messages '
              '(all length forms incl. 16/32-bit, tokens 0/8/13/20/269/300, ping/pong/empty/CSM/responses/malformed/release/abort, oversize) '
-             'cut at every 1-cut, (sampled) 2- and 3-cut placement, one byte per read, empty reads, buffer-size reads and random cuts'),
+             'cut at every 1-cut, (sampled) 2- and 3-cut placement, one byte per read, empty reads, buffer-size reads and random cuts; server sessions (real accept path) '
+             'and client sessions (real connect to the driver\'s listener); WebSocket: upgrade request / 101 response in several valid spellings, header lines of 100..400 bytes '
+             '(over-long closes), masked / unmasked frames with 7/16/64-bit lengths, cuts in handshake, frame header, key and payload, many small frames in one arrival'),
         time.time() - t0, violations=len(vio_out),
-        assumptions=['WebSocket framing and the HTTP upgrade are not covered by this check (see DESIGN.md)', 'TKL 15 inside a stream is not generated',
+        assumptions=['whether the lines of a handshake make a valid upgrade request / response is not modelled: the C05 cases use valid ones, invalid ones (hostile=1) '
+                     'are judged for robustness only (sanitizer report, hang); WSS / TLS records and fragmented WebSocket frames are not generated',
+                     'TKL 15 inside a stream is not generated',
                      'declared sizes within 100 bytes of the configured maximum are not generated'])
     V.finish(pid, vio_out, [])
